@@ -11,6 +11,7 @@
    structure ids apart), refs_wfb (no id 0, the schema calls exactly the ArrayBase subtypes arrays, `sofa` features hold
    sofas), doc_ok_json (well-formed document). *)
 From Cassis Require Import Base Heap Schema Canon Reach JsonDoc Json JsonProofs JsonProofs2 JsonLoadProofs JsonLex CorrC02.
+From Cassis Require Import JsonWf JsonDocOk.
 From Cassis Require Props.C02.
 Open Scope Z_scope.
 
@@ -58,10 +59,17 @@ Proof.
 Qed.
 Print Assumptions C04_json_entries.
 
-(* Full statement json_doc_ok:  save_json L s mode c = Ok (d, c') -> premises -> doc_ok_json L s d = true.
-   Proved: the closed part of doc_ok_json (C04_json_ids_distinct, C04_json_refs_resolve).  Not proved for all inputs: the
-   remaining conjuncts of doc_ok_json (member names are features of the type, values are of the kind of the range, no
-   member twice); they are evaluated in Coq on every document cassis writes (CorrC04json.check_case04). *)
+(* json_doc_ok, full statement (Round 3, JsonDocOk.v): the written document is a well-formed JSON-CAS document — beyond the closed
+   part above: ids positive, view / sofa names and sofaNums distinct, sofa entries carry only sofa keys, each sofa byte array is
+   a ByteArray entry, each view lists a member once and a member's `sofa` names that view's sofa, every entry's keys are %ID,
+   %TYPE, %ELEMENTS or feature names of its type with the right sigil (plain / '@' / '#'), no key or feature twice, values of
+   the kind of the range, '@' values resolve to feature structures (Sofa-ranged: to sofas), %ELEMENTS of the kind of the array.
+   typed_jsonb (JsonWf.v) is the boolean typing premise on the CAS the save leaves behind. *)
+Theorem C04_json_doc_ok : forall L s mode c d c',
+  lex_ok L -> save_json L s mode c = Ok (d, c') -> wf_jsonb s c' = true -> 0 < c_next_id c ->
+  ids_distinctb s c' = true -> refs_wfb s c' = true -> typed_jsonb s c' = true -> doc_ok_json L s d = true.
+Proof. exact doc_ok_save_json. Qed.
+Print Assumptions C04_json_doc_ok.
 
 (* the lexical layer: UTF-8 and base64 as implemented in JsonDoc.v satisfy the contract *)
 Theorem C04_json_std_lex_ok : lex_ok std_lex.
@@ -139,7 +147,8 @@ Example PropsJson_premises_hold :
   let s := full_schema (c_user Props.C02.ex_case) in
   match save_json std_lex s MMinimal (c_cas Props.C02.ex_case) with
   | Ok (d, c') =>
-      wf_jsonb s c' = true /\ ids_distinctb s c' = true /\ refs_wfb s c' = true /\ 0 < c_next_id (c_cas Props.C02.ex_case) /\
+      wf_jsonb s c' = true /\ ids_distinctb s c' = true /\ refs_wfb s c' = true /\ typed_jsonb s c' = true /\
+      0 < c_next_id (c_cas Props.C02.ex_case) /\
       schema_keys_okb s = true /\
       doc_ids_distinctb d = true /\ doc_refs_resolveb d = true /\ doc_ok_json std_lex s d = true /\
       initial_view_in c' = true /\ load_json std_lex s d = canon_json s c' /\
